@@ -218,7 +218,12 @@ static MessageRef GenCommand(World & w, int who, vf::BS & bs, int depth, bool & 
          std::string l = "SETDATA";
          for (uint32 i=0; i<n; i++)
          {
-            const char * rp = REL[bs.u8()%8]; MessageRef d = GetMessageFromPool(bs.u8()%3); (void) d()->AddInt32("v", bs.u8()%3); if (bs.u8()%3 == 0) (void) d()->AddString("s", (bs.u8()&1) ? "abc" : "b");
+            const uint8_t rb = bs.u8(); const char * rp = REL[rb%8];
+#ifdef VF_C13
+            // explicitly named children that look like the server's own generated names ("I<n>"): the name generator of later ordered inserts has to step around them
+            {static const char * const INAMES[] = {"a/I0", "a/I1", "b/I2", "b/I1", "a/I3", "b/I0"}; if (rb >= 208) rp = INAMES[(rb-208)/8];}
+#endif
+            MessageRef d = GetMessageFromPool(bs.u8()%3); (void) d()->AddInt32("v", bs.u8()%3); if (bs.u8()%3 == 0) (void) d()->AddString("s", (bs.u8()&1) ? "abc" : "b");
             (void) m()->AddMessage(rp, d); snprintf(buf, sizeof(buf), " %s{v=%d%s}", rp, d()->GetInt32("v"), d()->HasName("s") ? ",s" : ""); l += buf;
             if (quiet) {const std::string full = cl.root+"/"+rp; afterSend.push_back([full]{g_quietPrefixes.push_back(full); std::vector<std::string> parts = SplitPath(full); std::string p; for (size_t k=0; k<parts.size(); k++) {p += "/"+parts[k]; if (k >= 2) g_quietPrefixes.push_back(p);}});}
          }
